@@ -7,7 +7,7 @@ RULE = ('every harness of this framework (permutation/byte ranges, AEAD encrypt 
         'incl. incremental histories, masked words/states/keys, C++ classes, hex codec, NO_STL byte_array, PRNG + TRNG toolkit) '
         'run in exact-buffer mode: every buffer and state object comes from a guard-page allocator (PROT_NONE pages on both sides, '
         'object flush against either guard, all alignments, canary-filled slack), empty optional inputs passed as NULL half of the '
-        'time, outputs pre-filled and checked beyond the documented range; builds: gcc ASan+UBSan (-fno-sanitize-recover) over '
+        'time, outputs pre-filled and checked beyond the documented range; builds: gcc ASan+UBSan (-fno-sanitize-recover; one clang 14 ASan+UBSan build quick, four thorough) over '
         'backends x share triples incl. MAX_SHARES 2 and 3, plus the -O3 release builds so that guard pages cover the assembly; the '
         'command-line tools under ASan on hostile argument vectors / files (see C19 driver); a sanitizer report, guard fault '
         '(crash), changed canary or stray write is a violation; distinct = (build, harness-defined case class)')
@@ -41,9 +41,13 @@ def specs(thorough):
             for sh in ((4, 2, 4), (3, 1, 3), (2, 2, 2)):
                 out.append((Cfg(be, sh), 'asan'))
         out += [(Cfg(be), 'rel') for be in ('asm', 'c64', 'c32', 'dxor', 'generic')]
+        # a second compiler's sanitizers (clang 14) on one build per backend
+        out += [(Cfg('asm', (4, 2, 4)), 'asan', None, 'clang'), (Cfg('c64', (3, 3, 3)), 'asan', None, 'clang'), (Cfg('c32', (2, 1, 2)), 'asan', None, 'clang'),
+                (Cfg('generic', (4, 4, 4)), 'asan', None, 'clang')]
         return out
     return [(Cfg('asm', (4, 2, 4)), 'asan'), (Cfg('c64', (4, 3, 3)), 'asan'), (Cfg('c32', (4, 4, 2)), 'asan'),
-            (Cfg('generic', (3, 1, 4)), 'asan'), (Cfg('dxor', (2, 2, 4)), 'asan'), (Cfg('asm', (4, 2, 4)), 'rel'), (Cfg('asm', (3, 3, 3)), 'rel')]
+            (Cfg('generic', (3, 1, 4)), 'asan'), (Cfg('dxor', (2, 2, 4)), 'asan'), (Cfg('asm', (4, 2, 4)), 'rel'), (Cfg('asm', (3, 3, 3)), 'rel'),
+            (Cfg('c64', (3, 3, 3)), 'asan', None, 'clang')]      # a second compiler's sanitizers
 
 
 def run(ctx):
